@@ -403,8 +403,34 @@ def normalise(facts, known):
     called = set()
     for k, inl in changed:
         called.update(inl)
+    # a helper some body still calls (a call inside a closure that could not be spliced) stays a body of its own: the call graph
+    # has an edge to it
+    still = set()
+    for k, b in facts.bodies.items():
+        if k in helpers:
+            continue
+        from .callgraph import _fn_consts_in_operand
+        fcs = []
+        for bb in b.blocks:
+            for st in bb['stmts']:
+                if st['s'] == 'assign':
+                    rv = st['rv']
+                    ops = rv['ops'] if rv['r'] == 'aggr' else ([rv['a']] + ([rv['b']] if 'b' in rv else []) if 'a' in rv else [])
+                    for op in ops:
+                        fcs.extend(_fn_consts_in_operand(op))       # the helper handed on as a value (`.map(Line2::segment)`)
+            t = bb['term']
+            if t['t'] in ('call', 'tailcall'):
+                if t['func'].get('k') == 'const' and 'fn' in t['func']:
+                    fcs.append(t['func'])
+                for a in t['args']:
+                    fcs.extend(_fn_consts_in_operand(a))
+        for fc in fcs:
+            for g in [fc] + [{'k': 'const', 'fn': g_} for g_ in (fc.get('garg_fns') or [])]:
+                cb = facts.body_of_fnconst(g) if 'ty' in g or g is fc else facts.body(g['fn'])
+                if cb is not None and id(originals.get(getattr(cb, 'key_in_facts', cb.path), cb)) in hset:
+                    still.add(cb.path)
     for k, b in helpers.items():
-        if b.raw.get('vis') != 'Public' and b.path in called:
+        if b.raw.get('vis') != 'Public' and b.path in called and b.path not in still:
             facts.helpers[k] = facts.bodies.pop(k)
     facts.normalised = changed
     return changed
